@@ -43,6 +43,10 @@ def gen(ctx):
         # the same inner text inside different delimiters (raw string, JSON literal, quoted identifier): anything keyed on the inner text only mixes them up
         inner = rng.choice(['{"kind":"' + "a" * 30 + '"}', '"' + "b" * 40 + '"', "[1,2,3,4,5,6,7,8,9,10,11,12,13,14,15,16]", '"short"', "12345678901234567890123456789012345"])
         pool += ["'" + inner + "'", "`" + inner + "`", "@ == `" + inner + "`", "@ == '" + inner + "'"]
+        # expressions with two or more DIFFERENT failing parts: which error surfaces is fixed by the evaluation order, not by chance
+        pool += rng.sample(["{a: abs('x'), b: length(`1`), c: nope(@)}", "{z: nope(@), a: abs('x')}", "[abs('x'), length(`1`)]", "{k1: [::0], k2: abs('x'), k3: nope2(@)}",
+                            "not_null(abs('x'), length(`1`))", "{b: length(`1`), a: abs('x'), d: keys(`1`), c: values(`1`)}", "[*].{p: abs('x'), q: nope(@)}",
+                            "{a: a[::0], b: abs(a)}", "merge({a: abs('x')}, {b: nope(@)})"], 3)
         # respellings of the same expressions that differ only in insignificant whitespace (a memo keyed on a normalised text would
         # hand back the tree — and the offsets — of another spelling, depending on what was compiled before)
         pool += [rng.choice([" ", "  ", "\t", "\n"]) + p for p in rng.sample(pool, 3)] + [p + rng.choice([" ", "\n "]) for p in rng.sample(pool, 2)]
